@@ -147,6 +147,21 @@ func (eng *Engine) verifrtIntrinsic(name string) Intrinsic {
 			ex.trackObject(args[0])
 			return nil
 		}
+	case "WriteLocked", "ReadOrWriteLocked":
+		write := name == "WriteLocked"
+		return func(ex *Exec, fr *frame, args []Val) Val {
+			for _, st := range ex.locks {
+				if st == -1 || (!write && st > 0) {
+					return True
+				}
+			}
+			return False
+		}
+	case "SharedWrites":
+		// number of writes to process-wide state (package-level sync.Map ...) so far on this path
+		return func(ex *Exec, fr *frame, args []Val) Val {
+			return Const(64, uint64(len(ex.sharedWrites)))
+		}
 	case "HeldLocks":
 		return func(ex *Exec, fr *frame, args []Val) Val {
 			n := 0
